@@ -222,7 +222,7 @@ pub fn check(c: &Case, obs: &mut Obs) -> Result<(), String> {
 pub fn property() -> Property {
     Property {
         id: "C15",
-        rule: "Entry sequences of length 0-40 from all 18 command kinds, weighted towards files, '@ignore' (consecutive, trailing, separated from the next file by other commands) and '@cwd' / '@src' / '@cd' (absolute, trailing '/', '/', doubled slashes, relative, non-UTF-8, none before the first file), rendered one per line and parsed (C14 covers text <-> sequence). Oracle: the twelve views computed by M-plist from the sequence - files (minus every file with an @ignore between it and the preceding file), files_prefixed (most recent @cwd + '/' unless it ends in one), install_cmds / uninstall_cmds (entry by entry with ==), depends, build_depends, conflicts, pkgdirs, pkgrmdirs, pkgname, display, is_preserve - plus the cross-check that the file entries of install_cmds, uninstall_cmds, files() and the tails of files_prefixed() are one list. Non-trivial = at least one @ignore that is consecutive / trailing / separated from its file, and at least one @cwd. Distinct = distinct sequences.",
+        rule: "Entry sequences of length 0-40 from all 18 command kinds, weighted towards files, '@ignore' (consecutive, trailing, separated from the next file by other commands) and '@cwd' / '@src' / '@cd' (absolute, trailing '/', '/', doubled slashes, relative, non-UTF-8, none before the first file), rendered one per line and parsed (C14 covers text <-> sequence). Oracle: the twelve views computed by M-plist from the sequence - files (minus every file with an @ignore between it and the preceding file), files_prefixed (most recent @cwd + '/' unless it ends in one), install_cmds / uninstall_cmds (entry by entry with ==), depends, build_depends, conflicts, pkgdirs, pkgrmdirs, pkgname, display, is_preserve - plus the cross-check that the file entries of install_cmds, uninstall_cmds, files() and the tails of files_prefixed() are one list. Non-trivial = at least one @ignore that is consecutive / trailing / separated from its file, and at least one @cwd. Distinct = distinct sequences. Generators also draw, at low weight, tokens from the source-literal dictionary (every string / byte / character literal of the library's own source, collected at build time and filtered by this domain's character class); directory arguments over small alphabets of path punctuation ('/', '.', ' ', '-', '~').",
         assumptions: vec!["every generated line is a valid entry under M-plist (invalid or ambiguous lines are excluded, C14 covers them)"],
         streams: vec![random_stream("sequences", "generated entry sequences, all views", case_strategy, |t| t.pick(100_000, 6_000_000), check)],
         selfcheck: m::selfcheck,
